@@ -70,7 +70,7 @@ theorem dget_paramEntries (ps : List Nat) (n : List (Nat × Entry)) (x : Nat) :
 /-- the state the main pass starts from -/
 theorem processParams_main (p : Prog) :
     processParams { nss := [{ parent := none }] } [] p.params [] (some p.va) (some p.vk) true =
-      Flat.mk (dset (dset (paramEntries p.params []) p.va { m := .arg p.va (some .va) }) p.vk { m := .arg p.vk (some .vk) })
+      Flat.mk [] [] (dset (dset (paramEntries p.params []) p.va { m := .arg p.va (some .va) }) p.vk { m := .arg p.vk (some .vk) })
         (([p.va] : List Nat).filter (· ≠ p.vk)) [] := by
   have h0 : ({ nss := [{ parent := none }] } : VState) = mkG [] [] false false := rfl
   unfold processParams
@@ -147,13 +147,13 @@ theorem initial_inv (p : Prog) (h : FlatProg p) :
 /-- **visitor = ground truth** on flat programs of the forwarding grammar -/
 theorem visitor_eq_truth_flat (p : Prog) (h : FlatProg p) :
     (runVisitor (render p)).map forwarding = .ok ((truth p).map (FwdCall.toRec p)) := by
-  obtain ⟨n', i', recs, e, _, hf⟩ := simSL p _ _ h.clean p.body h.flat h.ok (fun x hx => hx) (fun r hr => hr)
+  obtain ⟨n', i', recs, e, _, hf⟩ := simSL (kids := []) (rev := []) p _ _ h.clean p.body h.flat h.ok (fun x hx => hx) (fun r hr => hr)
     false false _ _ [] (initial_inv p h)
   simp only [render, runVisitor, processParams_main, e, List.nil_append]
-  have hloop : revisitLoop ((renderSL p.va p.vk p.body).size + 1) 0 (Flat.mk n' i' recs) = some (Flat.mk n' i' recs) := by
+  have hloop : revisitLoop ((renderSL p.va p.vk p.body).size + 1) 0 (Flat.mk [] [] n' i' recs) = some (Flat.mk [] [] n' i' recs) := by
     simp [revisitLoop, Flat.mk]
   simp only [hloop, Except.map]
-  have hc : (Flat.mk n' i' recs).calls = recs := rfl
+  have hc : (Flat.mk [] [] n' i' recs).calls = recs := rfl
   rw [hc, hf]
   simp only [truth]
   rw [nestedSL_flat p.body h.flat]
